@@ -151,6 +151,13 @@ def real_groups(tier, seed):
             groups.append({"key": "%s/detrat" % isa, "header": "reduce_real.h", "isa": isa, "opt": "-O2", "calls": calls})
     return groups
 
+def _filtered(fn):
+    """developer aid for the mutation self-test: C16_FILTER=<regex on group keys> runs a subset of the same groups"""
+    flt = os.environ.get("C16_FILTER")
+    if not flt:
+        return fn
+    return lambda tier, seed: [g for g in fn(tier, seed) if re.search(flt, g["key"])]
+
 def ofail_key(f):
     """violation keys for the two recorded defects; everything else keeps the default key"""
     inp, impl = f["input"], f["impl"]
@@ -163,7 +170,7 @@ def ofail_key(f):
 def run(tier, seed):
     seeds = extract_seeds()
     return flow.standard_run(
-        PID, tier, seed, "Fastor.C16.reduce_correct", "FastorModel.Model.Reduce", sym_groups, real_groups,
+        PID, tier, seed, "Fastor.C16.reduce_correct", "FastorModel.Model.Reduce", _filtered(sym_groups), _filtered(real_groups),
         assumptions=["vector primitives of the model are lane-wise by definition (real SIMDVector specialisations: C08; expression eval: C02 lanes_of_evalV)",
                      "the symbolic carrier's SIMDVector is the ideal lane-wise vector of harness/common/simd_sym.h; the real horizontal "
                      "sum/product/minimum/maximum of each (T,ABI) are exercised by the real-type value runs only",
